@@ -75,6 +75,9 @@ use crate::{
 };
 
 mod conversion;
+#[cfg(all(test, feature = "verif"))]
+#[path = "/verif/harness/relayer/write.rs"]
+mod verif;
 use conversion::NextSubmission;
 
 /// A simple, passive object to allow the Celestia fee to be returned along with the
